@@ -1085,7 +1085,7 @@ def finalize_constraints(weights,
     return weights
   units = weights.shape[1]
   if units > 1:
-    lattice_sizes = lattice_sizes + [int(units)]
+    lattice_sizes = list(lattice_sizes) + [int(units)]
     if monotonicities:
       monotonicities = monotonicities + [0]
 
@@ -1925,7 +1925,7 @@ def project_by_dykstra(weights,
   range_dominances = [tuple(c) for c in range_dominances]
   joint_monotonicities = [tuple(c) for c in joint_monotonicities]
   if units > 1:
-    lattice_sizes = lattice_sizes + [int(units)]
+    lattice_sizes = list(lattice_sizes) + [int(units)]
     monotonicities = monotonicities + [0]
     unimodalities = unimodalities + [0]
 
@@ -2132,7 +2132,7 @@ def laplacian_regularizer(weights, lattice_sizes, l1=0.0, l2=0.0):
     l2 = [l2] * rank
 
   if weights.shape[1] > 1:
-    lattice_sizes = lattice_sizes + [int(weights.shape[1])]
+    lattice_sizes = list(lattice_sizes) + [int(weights.shape[1])]
     rank += 1
     if l1:
       l1 = l1 + [0.0]
@@ -2211,7 +2211,7 @@ def torsion_regularizer(weights, lattice_sizes, l1=0.0, l2=0.0):
     l2 = [math.sqrt(l2)] * rank
 
   if weights.shape[1] > 1:
-    lattice_sizes = lattice_sizes + [int(weights.shape[1])]
+    lattice_sizes = list(lattice_sizes) + [int(weights.shape[1])]
     rank += 1
     if l1:
       l1 = l1 + [0.0]
@@ -2566,7 +2566,7 @@ def assert_constraints(weights,
   del joint_unimodalities
 
   if weights.shape[1] > 1:
-    lattice_sizes = lattice_sizes + [int(weights.shape[1])]
+    lattice_sizes = list(lattice_sizes) + [int(weights.shape[1])]
     if monotonicities:
       monotonicities = monotonicities + [0]
   weights = tf.reshape(weights, shape=lattice_sizes)
